@@ -292,12 +292,34 @@ Qed.
 
 Definition is_rec (x : member) : bool := match x with MRec _ _ _ => true | MOther => false end.
 
-(* (o) a batch led by an object of another collection: nothing happens at all *)
-Theorem many_other_first_no_effect hk ls s r :
-  do_many hk ls s (MOther :: r) =
-  (s, (if existsb is_rec r then Err EWrongType else Ok tt),
-      (if existsb is_rec r then 0%Z else Z.of_nat (length (MOther :: r)))).
-Proof. reflexivity. Qed.
+(* (o) a batch led by an object of another collection: the world is not touched; of the handle, at most the
+   lazy load of this collection's schema (initialising a member that has no uuid yet asks whether its new
+   uuid exists) *)
+Theorem many_other_first hk ls s r s' res n :
+  do_many hk ls s (MOther :: r) = (s', res, n) ->
+  s_w s' = s_w s /\
+  (s_h s' = s_h s \/ s_h s' = fst (fst (db_schema ls (s_h s) (w_disk (s_w s))))) /\
+  (existsb is_rec r = false -> s' = s /\ res = Ok tt /\ n = Z.of_nat (length (MOther :: r))) /\
+  (existsb is_rec r = true -> n = 0%Z /\ exists e, res = Err e).
+Proof.
+  unfold do_many. fold is_rec.
+  destruct (find is_rec r) as [x|] eqn:F.
+  - assert (E : existsb is_rec r = true).
+    { apply find_some in F. apply existsb_exists. exists x. exact F. }
+    destruct x as [u fr o|].
+    + destruct (N.eqb u 0).
+      * destruct (db_schema ls (s_h s) (w_disk (s_w s))) as [[h1 mo] eo] eqn:Hs.
+        destruct eo as [e0|]; intros H; inv H; cbn [s_w s_h mk fst];
+          (split; [reflexivity|split; [right; reflexivity|split; [congruence|intros _; split; [reflexivity|eexists; reflexivity]]]]).
+      * intros H; inv H. split; [reflexivity|]. split; [left; reflexivity|]. split; [congruence|].
+        intros _; split; [reflexivity|eexists; reflexivity].
+    + apply find_some in F. destruct F as [_ F]. discriminate F.
+  - assert (E : existsb is_rec r = false).
+    { destruct (existsb is_rec r) eqn:X; [|reflexivity]. apply existsb_exists in X. destruct X as [x [Hin Hx]].
+      pose proof (find_none _ _ F x Hin). congruence. }
+    intros H; inv H. split; [reflexivity|]. split; [left; reflexivity|]. split; [auto|]. congruence.
+Qed.
+Print Assumptions many_other_first.
 
 (* (i) a batch rejected by the validation loop: only the lazy schema load is visible *)
 Theorem many_validation_rejected hk ls s u fresh o r h1 m e :
@@ -313,7 +335,8 @@ Print Assumptions many_validation_rejected.
    EUnique raised by the insertion loop on a batch the validation loop had accepted *)
 Theorem many_rejected_cases hk ls s ms s' e n :
   do_many hk ls s ms = (s', Err e, n) -> logical e ->
-  (exists r, ms = MOther :: r /\ s' = s /\ n = 0%Z) \/
+  (exists r, ms = MOther :: r /\ n = 0%Z /\ s_w s' = s_w s /\
+      (s_h s' = s_h s \/ s_h s' = fst (fst (db_schema ls (s_h s) (w_disk (s_w s)))))) \/
   (exists u fresh o r, ms = MRec u fresh o :: r /\ n = 0%Z /\ s_w s' = s_w s /\
       s_h s' = fst (fst (db_schema ls (s_h s) (w_disk (s_w s))))) \/
   (exists h1 m l h2 w2 h3 w3,
@@ -339,8 +362,10 @@ Proof.
     + right. pose proof (validate_batch_serialisable _ _ _ _ _ Hv) as Hser.
       pose proof (insert_loop_logical _ _ _ _ _ _ _ _ _ Hser Hl HL) as ->.
       exists h1, m, l, h2, w2, h3, w3. repeat (split; [assumption || reflexivity|]). reflexivity.
-  - intros H HL. left. exists r. cbn in H.
-    destruct (existsb _ r); inv H. auto.
+  - intros H HL. left. exists r. destruct (many_other_first _ _ _ _ _ _ _ H) as [W [Hh [N0 N1]]].
+    destruct (existsb is_rec r) eqn:X.
+    + destruct (N1 eq_refl) as [-> _]. auto.
+    + destruct (N0 eq_refl) as [_ [Q _]]. discriminate Q.
 Qed.
 Print Assumptions many_rejected_cases.
 
@@ -356,13 +381,14 @@ Theorem many_rejected_no_trace hk ls s ms s' e n :
   do_many hk ls s ms = (s', Err e, n) -> logical e ->
   loop_never_unique hk ls s ms ->
   n = 0%Z /\ s_w s' = s_w s /\
-  ((exists r, ms = MOther :: r) /\ s' = s \/
+  ((exists r, ms = MOther :: r) /\
+     (s_h s' = s_h s \/ s_h s' = fst (fst (db_schema ls (s_h s) (w_disk (s_w s))))) \/
    (exists u fresh o r, ms = MRec u fresh o :: r) /\
      s_h s' = fst (fst (db_schema ls (s_h s) (w_disk (s_w s))))).
 Proof.
   intros H HL Hnu.
-  destruct (many_rejected_cases _ _ _ _ _ _ _ H HL) as [[r [-> [-> ->]]]|[[u [fresh [o [r [-> [-> [Hw Hh]]]]]]]|X]].
-  - split; [reflexivity|]. split; [reflexivity|]. left. split; [eexists; reflexivity|reflexivity].
+  destruct (many_rejected_cases _ _ _ _ _ _ _ H HL) as [[r [-> [-> [Hw Hh]]]]|[[u [fresh [o [r [-> [-> [Hw Hh]]]]]]]|X]].
+  - split; [reflexivity|]. split; [exact Hw|]. left. split; [eexists; reflexivity|exact Hh].
   - split; [reflexivity|]. split; [exact Hw|]. right. split; [repeat eexists|exact Hh].
   - destruct X as [h1 [m [l [h2 [w2 [h3 [w3 [Hs [Hv [Hl _]]]]]]]]]].
     exfalso. eapply Hnu; eassumption.
@@ -602,8 +628,13 @@ Proof.
 Qed.
 
 Example many_other_first_ex :
-  do_many hk0 7%N sx2 [MOther; MRec 0 2 (ob 6)] = (sx2, Err EWrongType, 0%Z).
-Proof. reflexivity. Qed.
+  do_many hk0 7%N sx2 [MOther; MRec 1 2 (ob 6)] = (sx2, Err EWrongType, 0%Z) /\
+  (* a member without uuid: the schema of this collection is loaded on the way, nothing else *)
+  exists s', do_many hk0 7%N sx2 [MOther; MRec 0 2 (ob 6)] = (s', Err EWrongType, 0%Z) /\
+             s_w s' = s_w sx2 /\ h_mem (s_h sx2) = None /\ h_mem (s_h s') <> None.
+Proof.
+  split; [vm_compute; reflexivity|]. eexists. split; [vm_lhs|]. split; [reflexivity|]. split; [reflexivity|]. discriminate.
+Qed.
 
 Example bulk_rejected_prefix_ex :
   exists s', bulk_loop hk0 7%N sx1 (chunks 1 [MRec 0 2 (ob 6); MRec 0 3 (ob 5); MRec 0 4 (ob 7)]) 0%Z
